@@ -7,46 +7,47 @@ import (
 
 	"github.com/pdfcpu/pdfcpu/pkg/api"
 	"github.com/pdfcpu/pdfcpu/pkg/pdfcpu/model"
+	"github.com/pdfcpu/pdfcpu/pkg/pdfcpu/types"
+	"verif/harness/lib/rawpdf"
 )
 
-func dump(f string, c *model.Configuration) {
+func get(f string, c *model.Configuration) string {
 	fh, _ := os.Open(f)
+	defer fh.Close()
 	ctx, err := api.ReadAndValidate(fh, c)
 	if err != nil {
-		fmt.Println(f, err)
-		return
+		return "ERR " + err.Error()
 	}
-	for n := 1; n < *ctx.XRefTable.Size; n++ {
-		e, ok := ctx.XRefTable.Table[n]
-		if !ok || e.Object == nil {
-			continue
-		}
-		s := e.Object.PDFString()
-		if i := strings.Index(s, "AAPL:AKAnnotationObject"); i >= 0 && n == 136 {
-			j := i + 90
-			if j > len(s) {
-				j = len(s)
-			}
-			fmt.Printf("%s obj %d len=%d: %q\n", f, n, len(s), s[i:j])
-		}
+	d, _ := ctx.DereferenceDict(*ctx.Info)
+	o := d["Title"]
+	if sl, ok := o.(types.StringLiteral); ok {
+		return sl.Value()
 	}
+	return fmt.Sprintf("%T %v", o, o)
 }
 
 func main() {
 	api.DisableConfigDir()
-	src := os.Args[1]
 	d := "/tmp/sec-probe/"
-	dump(src, model.NewDefaultConfiguration())
-	for _, alg := range []string{"aes", "rc4"} {
-		c := model.NewAESConfiguration("u", "o", 256)
-		if alg == "rc4" {
-			c = model.NewRC4Configuration("u", "o", 128)
+	for _, n := range []int{100, 1000, 4000, 8000, 12000, 16000, 20000} {
+		s := strings.Repeat("abcdefghij", n/10)
+		doc := rawpdf.MarkerDoc([]rawpdf.PageSpec{{Marker: "m", Rotate: -1}}, rawpdf.MarkerOpts{InfoDict: "/Title (" + s + ")"})
+		os.WriteFile(d+"l.pdf", doc.Bytes(), 0o644)
+		for _, alg := range []string{"aes", "rc4"} {
+			c := model.NewAESConfiguration("u", "o", 256)
+			if alg == "rc4" {
+				c = model.NewRC4Configuration("u", "o", 128)
+			}
+			os.Remove(d + "le.pdf")
+			err := api.EncryptFile(d+"l.pdf", d+"le.pdf", c)
+			c2 := model.NewDefaultConfiguration()
+			c2.UserPW = "u"
+			got := get(d+"le.pdf", c2)
+			ok := got == s
+			if len(got) > 60 {
+				got = got[:60]
+			}
+			fmt.Printf("n=%d %s enc=%v same=%v got=%q\n", n, alg, err, ok, got)
 		}
-		fmt.Println("enc", api.EncryptFile(src, d+"e.pdf", c))
-		c2 := model.NewDefaultConfiguration()
-		c2.UserPW = "u"
-		dump(d+"e.pdf", c2)
 	}
-	fmt.Println("opt", api.OptimizeFile(src, d+"o.pdf", model.NewDefaultConfiguration()))
-	dump(d+"o.pdf", model.NewDefaultConfiguration())
 }
